@@ -16,11 +16,13 @@ FilesA == {"F1", "F2", "F4"}     \* prefix extension, repeated chunk
 FilesB == {"F1", "F3", "F5"}     \* identical content under two names, single-chunk file that is another's data chunk
 FilesC == {"F2", "F5", "F6"}     \* chunk-aligned prefix with a short tail
 FilesD == {"F1", "F2"}
+FilesF == {"F2", "F4"}           \* small universe for complete pin/unpin edge cover (shared chunk Z, repeated in F4)
 FilesE == {"F2", "F4", "F7"}     \* one chunk (Z) in three files, twice in one of them
 DataA == [f \in FilesA |-> CatData[f]]  OtherA == [f \in FilesA |-> CatOther[f]]
 DataB == [f \in FilesB |-> CatData[f]]  OtherB == [f \in FilesB |-> CatOther[f]]
 DataC == [f \in FilesC |-> CatData[f]]  OtherC == [f \in FilesC |-> CatOther[f]]
 DataD == [f \in FilesD |-> CatData[f]]  OtherD == [f \in FilesD |-> CatOther[f]]
+DataF == [f \in FilesF |-> CatData[f]]  OtherF == [f \in FilesF |-> CatOther[f]]
 DataE == [f \in FilesE |-> CatData[f]]  OtherE == [f \in FilesE |-> CatOther[f]]
 GenCaps == {1, 3, 6}
 
@@ -38,9 +40,12 @@ NextPin == \/ \E f \in File, p \in BOOLEAN : Upload(f, p)
            \/ \E f \in File : Download(f, "all") \/ Delete(f)
            \/ \E f \in File, via \in {"api", "svc"} : Pin(f, via) \/ Unpin(f, via)
 
+NextPin2 == \/ \E f \in File : Upload(f, FALSE) \/ Download(f, "all")
+            \/ \E f \in File, via \in {"api", "svc"} : Pin(f, via) \/ Unpin(f, via)
+
 GInit == Init /\ hist = <<>> /\ gone = {} /\ pre = <<>>
 GNext == /\ Len(hist) < Depth
-         /\ CASE Mode = "del" -> NextDel [] Mode = "pin" -> NextPin [] OTHER -> Next
+         /\ CASE Mode = "del" -> NextDel [] Mode = "pin" -> NextPin [] Mode = "pin2" -> NextPin2 [] OTHER -> Next
          /\ hist' = Append(hist, last')
          /\ gone' = gone \cup (known \ known')
          /\ pre' = <<data, up, pin, acct, known, rootpin, gone>>
